@@ -696,7 +696,8 @@ fn replay_cases(args: &Args) -> i32 {
                 if m == "h" {
                     emit_format(&mut out, &mut st, &text);
                 }
-                // the comparison is equality with what TLC printed
+                // the comparison is equality with what TLC printed: the same list, or errors on both
+                // sides (which errors is observed -- `same_errors` -- but not part of the property)
                 let want = &case["want"];
                 let want_errs = arr(&want["errs"]);
                 let agrees = if want_errs.is_empty() {
@@ -704,10 +705,15 @@ fn replay_cases(args: &Args) -> i32 {
                 } else {
                     match res.get("errs").and_then(|e| e.as_array()) {
                         Some(es) => {
-                            es.len() == want_errs.len()
+                            st.inc("case.prog.with_errors");
+                            if es.len() == want_errs.len()
                                 && es.iter().zip(want_errs).all(|(g, w)| {
                                     g["c"] == w["c"] && g["fn"] == w["fn"] && g["arg"] == w["arg"] && g["got"] == w["got"]
                                 })
+                            {
+                                st.inc("case.prog.same_errors");
+                            }
+                            !es.is_empty()
                         }
                         None => false,
                     }
@@ -790,7 +796,7 @@ fn g_font(r: &mut Rng, big: bool) -> u32 {
     match r.below(10) {
         0 => i32::MAX as u32,
         1 => r.range(0, i32::MAX as i64) as u32,
-        2 if big => u32::MAX - r.below(3) as u32, // above i32::MAX: written as a negative integer
+        2 | 3 | 4 if big => u32::MAX - r.below(3) as u32, // above i32::MAX: written as a negative integer
         _ => r.below(4) as u32,
     }
 }
@@ -852,7 +858,7 @@ impl Gen {
             4 => (1 << 24) - 1,
             _ => 32768 * self.r.range(0, 9) as i32,
         };
-        let k = if self.neg_ratio && self.r.chance(1, 4) { -k } else { k };
+        let k = if self.neg_ratio && self.r.chance(1, 2) { -k } else { k };
         ds::GlueRatio { num: Scaled(k), den: Scaled::ONE }
     }
     fn hbox(&mut self, depth: u32) -> ds::HBox {
@@ -982,8 +988,8 @@ fn random_lists(args: &Args) -> i32 {
     for i in 0..n {
         g.budget = 10 + g.r.below(60) as i64;
         // the two recorded defects of the printer are met by their own, small share of the lists
-        g.big_font = i % 40 == 7;
-        g.neg_ratio = i % 10 == 3;
+        g.big_font = i % 25 == 7;
+        g.neg_ratio = i % 5 == 3;
         let depth = 1 + g.r.below(maxdepth as u64) as u32;
         let l = if g.r.chance(1, 4) { L::V(g.vlist(depth)) } else { L::H(g.hlist(depth)) };
         let how = if g.r.chance(1, 3) { "elem" } else { "vec" };
